@@ -22,8 +22,8 @@ LEVEL = 'exploration'
 RULE = ('types from vlib.hailgen.type_descs (recursive over all type constructors incl. wide structs; struct field '
         'names and reference-genome names from an escaping-stress alphabet: ASCII identifiers, digit-first, spaces, '
         'backtick, backslash, quotes, \\n\\t\\0, C1 controls, Latin-1, BMP, astral, superscript/other-number digits, '
-        'empty) plus free-standing name strings; exhaustive single-character names over U+0000..U+FFFF and samples of '
-        'the astral planes. Oracle (a) Python: dtype(str(t))==t, dtype(t.pretty())==t, vcf grammar on the engine form, '
+        'empty) plus free-standing name strings; single-character names (alone, after and before an ASCII letter) over '
+        'U+0000..U+FFFF (thorough: every code point; quick: all below U+3000, every 4th above) and samples of the astral planes. Oracle (a) Python: dtype(str(t))==t, dtype(t.pretty())==t, vcf grammar on the engine form, '
         'unescape_parsable(escape_parsable(s))==s. Oracle (b) engine: real IRLexer slice tokenises _parsable_string()/'
         'escape_id(name)/escape_parsable(name) into the predicted token sequence. Non-trivial: type contains a name that '
         'is not accepted bare or is non-ASCII (string cases: the string itself); distinct by canonical case.')
@@ -41,11 +41,20 @@ P = 'hail/hail/src/is/hail/expr/ir/Parser.scala'
 U = 'hail/hail/utils/src/is/hail/utils/'
 
 HANDLER = r'''
+    def hx(s: String): String = {          // token values travel hex-encoded (UTF-8): cheap and unambiguous
+      val bs = s.getBytes("UTF-8")
+      val sb = new java.lang.StringBuilder(bs.length * 2 + 2)
+      sb.append('"')
+      var i = 0
+      while (i < bs.length) {
+        sb.append(Character.forDigit((bs(i) >> 4) & 0xf, 16)); sb.append(Character.forDigit(bs(i) & 0xf, 16)); i += 1
+      }
+      sb.append('"').toString
+    }
     op match {
       case "lex" =>
         val toks = IRLexer.parse(unhex(a(0)))
-        toks.map(t => "[" + jstr(t.getName) + "," + jstr(String.valueOf(t.value)) + "]").mkString("[", ",", "]")
-      case "esc" => jstr(StringEscapeUtils.escapeString(unhex(a(0)), a(1) == "1"))
+        toks.map(t => "[" + jstr(t.getName) + "," + hx(String.valueOf(t.value)) + "]").mkString("[", ",", "]")
     }
 '''
 
@@ -87,7 +96,7 @@ object ParserUtils {
     atexit.register(_jvm.close)
     # smoke test: the slice must lex the design-time example
     from vlib.jvmslice import hexs, JvmSliceError
-    r = _jvm.ask(['lex ' + hexs('Struct{a:Int32,`b c`:Array[String]}')])[0]
+    r = _unhex_replies(_jvm.ask(['lex ' + hexs('Struct{a:Int32,`b c`:Array[String]}')]))[0]
     want = [['identifier', 'Struct'], ['punctuation', '{'], ['identifier', 'a'], ['punctuation', ':'], ['identifier', 'Int32'],
             ['punctuation', ','], ['identifier', 'b c'], ['punctuation', ':'], ['identifier', 'Array'], ['punctuation', '['],
             ['identifier', 'String'], ['punctuation', ']'], ['punctuation', '}']]
@@ -105,7 +114,7 @@ def lex(texts):
     todo = [t for t in dict.fromkeys(texts) if t not in _lex_cache]
     if not todo:
         return [_lex_cache[t] for t in texts]
-    got = dict(zip(todo, engine().ask_chunked(['lex ' + hexs(t) for t in todo], chunk=2000)))
+    got = dict(zip(todo, _unhex_replies(engine().ask_chunked(['lex ' + hexs(t) for t in todo], chunk=2000))))
     return [_lex_cache[t] if t in _lex_cache else got[t] for t in texts]
 
 
@@ -118,7 +127,16 @@ def prefetch(names):
     from vlib.jvmslice import hexs
     texts = list(dict.fromkeys(t for n in names for t in (escape_parsable(n), escape_id(n))))
     _lex_cache.clear()
-    _lex_cache.update(zip(texts, engine().ask_chunked(['lex ' + hexs(t) for t in texts], chunk=2000)))
+    _lex_cache.update(zip(texts, _unhex_replies(engine().ask_chunked(['lex ' + hexs(t) for t in texts], chunk=2000))))
+
+
+def _unhex_replies(replies):
+    out = []
+    for r in replies:
+        if isinstance(r, list):
+            r = [[k, bytes.fromhex(v).decode('utf-8', errors='surrogatepass')] for k, v in r]
+        out.append(r)
+    return out
 
 
 # ---------------------------------------------------------------------------------------------------------------
@@ -378,16 +396,22 @@ def _dedupe(fails):
 
 def plan(tier):
     specs = []
-    # exhaustive single-character names (and 'a'+c, c+'a' contexts) over the BMP, 8 slices; astral samples
-    step = 0x10000 // 8
-    for i in range(8):
-        specs.append(dict(kind='chars', lo=i * step, hi=(i + 1) * step))
+    # single-character names (c, 'a'+c, and c+'a' below U+0800): thorough = every BMP code point (8 slices);
+    # quick = every code point below U+3000 and every 4th above (CJK / Hangul blocks are homogeneous)
+    if tier == 'quick':
+        specs.append(dict(kind='chars', lo=0, hi=0x3000, step=1))
+        specs.append(dict(kind='chars', lo=0x3000, hi=0x9000, step=4))
+        specs.append(dict(kind='chars', lo=0x9000, hi=0x10000, step=4))
+    else:
+        step = 0x10000 // 8
+        for i in range(8):
+            specs.append(dict(kind='chars', lo=i * step, hi=(i + 1) * step, step=1))
     specs.append(dict(kind='astral', stride=257 if tier == 'quick' else 17))
-    per = 700 if tier == 'quick' else 15000
-    for i in range(5):
-        specs.append(dict(kind='types', n=per, max_leaves=(4, 6, 8, 12, 6)[i]))
-    for i in range(2):
-        specs.append(dict(kind='strings', n=per * 2))
+    per = 600 if tier == 'quick' else 15000
+    for i in range(5 if tier == 'quick' else 8):
+        specs.append(dict(kind='types', n=per, max_leaves=(4, 6, 8, 12, 6, 8, 10, 5)[i]))
+    for i in range(2 if tier == 'quick' else 3):
+        specs.append(dict(kind='strings', n=per * 3))
     return specs
 
 
@@ -396,20 +420,26 @@ def run_shard(spec, seed, tier):
     hailenv.init()
     kind = spec['kind']
     if kind in ('chars', 'astral'):
-        res.exhaustive = kind == 'chars'
+        res.exhaustive = kind == 'chars' and spec.get('step', 1) == 1 and tier != 'quick'
         if kind == 'chars':
-            cps = [c for c in range(spec['lo'], spec['hi']) if not 0xD800 <= c <= 0xDFFF]
+            cps = [c for c in range(spec['lo'], spec['hi'], spec.get('step', 1)) if not 0xD800 <= c <= 0xDFFF]
         else:
             cps = list(range(0x10000, 0x110000, spec['stride'])) + [0x10FFFF, 0x1F600, 0x10000, 0x2F800, 0xE0001]
         batch = []
         for c in cps:
             ch = chr(c)
-            batch += [ch, 'a' + ch, ch + 'a'] if kind == 'chars' and c < 0x3000 else [ch, 'a' + ch]
+            batch += [ch, 'a' + ch, ch + 'a'] if kind == 'chars' and c < 0x800 else [ch, 'a' + ch]
         prefetch(batch)      # the same check_case as everywhere else, but the lexer replies come from one batch
-        for s in batch:
+        for s in batch:                       # distinct by construction: no per-case hashing
             case = {'s': s}
             nt, classes, fails = check_case(case, res)
-            res.case(case, nt, classes)
+            res.evaluations += 1
+            if nt:
+                res.nontrivial_extra += 1
+                if len(res.samples) < 2 and len(s) == 2:
+                    res.samples.append(case)
+            for c in classes:
+                res.classes[c] = res.classes.get(c, 0) + 1
             for sig, cl, msg in fails:
                 res.fail(sig, cl, msg, case)
         _lex_cache.clear()
